@@ -722,6 +722,48 @@ end
 def render (T : PrecTable) (e : Expr) : List Char := flat (compile T none e)
 
 
+/-! ## the regex colourizer, element level (`_colorize_re_tree`: the LITERAL and GROUPREF branches)
+
+Only these two branches are transcribed (the tree itself comes from pydoctor's vendored sre_parse36);
+the rest of the regex colourizer is checked by the direct oracle only. -/
+
+def reSpecials : List Char := ".^$\\*+?{}[]|()'".toList
+
+def hex4 (n : Nat) : List Char :=
+  [hexDigit (n / 4096 % 16), hexDigit (n / 256 % 16), hexDigit (n / 16 % 16), hexDigit (n % 16)]
+
+/-- the LITERAL branch: `in_set` (inside `[...]`), `verbose` (`self._re_keep_verbose_escapes`: the
+pattern contains `(?x)` / `(?x:...)`) -/
+def reLiteral (inSet verbose : Bool) (c : Char) : List Char :=
+  if reSpecials.contains c || (inSet && c == '-') then ['\\', c]
+  else if (c == ' ' || c == '#') && verbose then ['\\', c]
+  else if c = '\t' then ['\\', 't']
+  else if c = '\r' then ['\\', 'r']
+  else if c = '\n' then ['\\', 'n']
+  else if c = Char.ofNat 12 then ['\\', 'f']
+  else if c = Char.ofNat 11 then ['\\', 'v']
+  else if c.toNat > 255 && c.toNat ≤ 65535 then '\\' :: 'u' :: hex4 c.toNat
+  else if (c.toNat < 32 || c.toNat ≥ 127) && c.toNat ≤ 65535 then
+    ['\\', 'x', hexDigit (c.toNat / 16 % 16), hexDigit (c.toNat % 16)]
+  else [c]
+
+/-- HISTORICAL (before 55809ad): blanks and `#` were never escaped -/
+def reLiteralOld (inSet : Bool) (c : Char) : List Char := reLiteral inSet false c
+
+def isDigitChar (c : Char) : Bool := '0' ≤ c && c ≤ '9'
+
+/-- the GROUPREF branch: `'\\%d' % group`, inside `(?:…)` when the next element of the tree is a
+LITERAL digit (`next` = the character of a following LITERAL element, if any) -/
+def reGroupRef (n : Nat) (next : Option Char) : List Char :=
+  match next with
+  | some d =>
+    if isDigitChar d then "(?:".toList ++ '\\' :: Nat.toDigits 10 n ++ [')']
+    else '\\' :: Nat.toDigits 10 n
+  | none => '\\' :: Nat.toDigits 10 n
+
+/-- HISTORICAL (before fd7f5b9) -/
+def reGroupRefOld (n : Nat) : List Char := '\\' :: Nat.toDigits 10 n
+
 /-! ## `astbuilder.ModuleVistor._storeAttrValue`: the value of a variable assembled from statements -/
 
 /-- `_storeAttrValue(obj, new_value, augassign)` on `obj.value = old`:
